@@ -829,7 +829,7 @@ def toEntryBody (env : Env) (fuel : Nat) (rec : Rec) (root : Mod) (scope : List 
     (e.withD fun d => { d with listAttr := some la, errors := d.errors ++ lerrs,
                                default := (n.all "default").map (·.arg) }, st)
   else if n.kw == "uses" then
-    match (findGrouping env.reg (2 * fuel + 16) root scope n.arg []).1 with
+    match (findGrouping env.reg env.linked (2 * fuel + 16) root scope n.arg []).1 with
     | none => (errorEntry root n "unknown-group", st)
     | some (g, groot, gscope) => rec groot gscope g visiting st
   else
@@ -931,5 +931,74 @@ theorem rootKeep_stepFn (env : Env) (rec : Rec) (root : Mod) (n : Stmt) (sub : L
          | exact rootKeep_withD _ _ (fun d => ⟨rfl, rfl, rfl⟩)
          | exact rootKeep_withD2_addErrs _ _ _ _ (fun d => ⟨rfl, rfl, rfl⟩) (fun d => ⟨rfl, rfl, rfl⟩)
          | exact ⟨rfl, rfl, rfl⟩)
+
+theorem rootKeep_fold_steps (env : Env) (rec : Rec) (root : Mod) (n : Stmt) (sub : List Stmt) (visiting : List NodeId)
+    (isMod : Bool) (l : List String) (acc : Entry × TState) :
+    RootKeep acc.1 (l.foldl (stepFn env rec root n sub visiting isMod) acc).1 :=
+  rootKeep_foldl _ _ _ (fun acc f => rootKeep_stepFn env rec root n sub visiting isMod acc f)
+
+/-- Kind of the entry made from a statement with keyword `kw`. -/
+def kindOf (kw : String) : Kind := if kw == "leaf" || kw == "leaf-list" then .leaf else kindOfKw kw
+
+theorem e0_data (root : Mod) (n : Stmt) : (e0 root n).d.name = n.arg ∧ (e0 root n).d.kind = kindOfKw n.kw ∧
+    (e0 root n).d.hasDir = true ∧ (e0 root n).d.node = n ∧
+    ((e0 root n).d.listAttr.isSome = true → n.kw = "list") ∧ (e0 root n).d.type = none := by
+  unfold e0 baseData
+  dsimp only [Entry.d]
+  split
+  · rename_i h; simp at h; simp [h]
+  · split <;> simp
+
+/-- What the entry made from statement `n` looks like, unless it is an error entry, the result of
+a `uses` (the grouping's entry), or a cached grouping / module entry. -/
+def Shape (n : Stmt) (e : Entry) : Prop :=
+  e.d.errors = [] → n.kw ≠ "uses" → n.kw ≠ "grouping" → n.kw ≠ "module" → n.kw ≠ "submodule" →
+    e.d.name = n.arg ∧ e.d.kind = kindOf n.kw ∧ e.d.hasDir = !(n.kw == "leaf" || n.kw == "leaf-list")
+
+theorem leafEntry_data (env : Env) (root : Mod) (scope : List Stmt) (n : Stmt) (syn : Bool) :
+    (leafEntry env root scope n syn).d.name = n.arg ∧ (leafEntry env root scope n syn).d.kind = .leaf ∧
+    (leafEntry env root scope n syn).d.hasDir = false ∧ (leafEntry env root scope n syn).d.node = n ∧
+    (leafEntry env root scope n syn).d.listAttr = none ∧
+    (leafEntry env root scope n syn).dir = [] ∧ (leafEntry env root scope n syn).inp = [] ∧
+    (leafEntry env root scope n syn).out = [] := by
+  unfold leafEntry
+  dsimp only
+  exact ⟨rfl, rfl, rfl, rfl, rfl, rfl, rfl, rfl⟩
+
+theorem toEntryBody_shape (env : Env) (fuel : Nat) (rec : Rec) (root : Mod) (scope : List Stmt) (n : Stmt)
+    (visiting : List NodeId) (st : TState) : Shape n (toEntryBody env fuel rec root scope n visiting st).1 := by
+  intro herr h1 h2 h3 h4
+  have hm : (n.kw == "module" || n.kw == "submodule") = false := by simp [h3, h4]
+  have hg : (n.kw == "grouping") = false := by simp [h2]
+  have hu : (n.kw == "uses") = false := by simp [h1]
+  unfold toEntryBody at herr ⊢
+  simp only [hm, hg, hu, Bool.false_eq_true, if_false, Bool.or_self, Bool.false_and] at herr ⊢
+  unfold kindOf
+  by_cases hl : n.kw = "leaf"
+  · simp only [hl, beq_self_eq_true, if_true, Bool.true_or, Bool.not_true] at herr ⊢
+    have := leafEntry_data env root scope n false
+    exact ⟨this.1, this.2.1, this.2.2.1⟩
+  · by_cases hll : n.kw = "leaf-list"
+    · simp only [hll, beq_self_eq_true, if_true, Bool.or_true, Bool.not_true] at herr ⊢
+      have := leafEntry_data env root scope n true
+      simp only [show ("leaf-list" == "leaf") = false by decide, Bool.false_eq_true, if_false]
+      generalize leafEntry env root scope n true = le at this ⊢
+      cases le with | mk d c i o =>
+      exact ⟨this.1, this.2.1, this.2.2.1⟩
+    · have hl' : (n.kw == "leaf") = false := by simp [hl]
+      have hll' : (n.kw == "leaf-list") = false := by simp [hll]
+      simp only [hl', hll', Bool.false_eq_true, if_false, Bool.or_self, Bool.not_false] at herr ⊢
+      have hk := rootKeep_fold_steps env rec root n (n :: scope) visiting false (fieldOrder n.kw) (e0 root n, st)
+      have h0 := e0_data root n
+      exact ⟨hk.1.trans h0.1, hk.2.1.trans h0.2.1, hk.2.2.trans h0.2.2.1⟩
+
+theorem errorEntry_errors (root : Mod) (n : Stmt) (cls : String) : (errorEntry root n cls).d.errors ≠ [] := by
+  simp [errorEntry, Entry.d]
+
+theorem toEntry_shape (env : Env) (fuel : Nat) (root : Mod) (scope : List Stmt) (n : Stmt)
+    (visiting : List NodeId) (st : TState) : Shape n (toEntry env fuel root scope n visiting st).1 := by
+  cases fuel with
+  | zero => intro herr; exact absurd herr (errorEntry_errors _ _ _)
+  | succ fuel => rw [toEntry_succ]; exact toEntryBody_shape _ _ _ _ _ _ _ _
 
 end Goyang.Lemmas.Tree
